@@ -30,6 +30,7 @@ type vfCase struct {
 	Validate bool   `json:"validate"`
 	Max      int    `json:"max"`
 	Dsz      int    `json:"dsz"`
+	Fetch    string `json:"fetch"`
 }
 
 type vfSched struct {
